@@ -15,7 +15,10 @@ extern "C" {
 #include "sha512_mb.h"
 #include "md5_mb.h"
 #include "sm3_mb.h"
+#include "mh_sha1.h"
+#include "mh_sha256.h"
 }
+#include "golden_rolling_table.h"
 
 namespace {
 
@@ -80,6 +83,27 @@ static void l2_load()
                 g_l2[A_SHA512].fams.push_back(sb);
 }
 
+static const char *kfam[5] = { "base", "sse", "avx", "avx2", "avx512" };
+static void *k_mh1_block[5], *k_mh256_block[5], *k_mur_block[5], *k_roll[3], *k_sha512_sse4;
+static void kern_load()
+{
+        static bool done = false;
+        if (done)
+                return;
+        done = true;
+        for (int f = 0; f < 5; f++) {
+                k_mh1_block[f] = libsym(strfmt("_mh_sha1_block_%s", kfam[f]).c_str(), false);
+                k_mh256_block[f] = libsym(strfmt("_mh_sha256_block_%s", kfam[f]).c_str(), false);
+                k_mur_block[f] = libsym(strfmt("_mh_sha1_murmur3_x64_128_block_%s", kfam[f]).c_str(), false);
+        }
+        k_roll[0] = libsym("_rolling_hash2_run_until_base", false);
+        k_roll[1] = libsym("_rolling_hash2_run_until_00", false);
+        k_roll[2] = libsym("_rolling_hash2_run_until_04", false);
+        k_sha512_sse4 = libsym("_sha512_sse4", false);
+}
+
+static inline uint64_t rol64k(uint64_t x, int n) { return n ? (x << n) | (x >> (64 - n)) : x; }
+
 struct L2Job {
         uint8_t *job = nullptr;
         uint8_t *buf = nullptr;
@@ -90,14 +114,18 @@ struct L2Job {
 
 struct L2Sim : Sim {
         const char *name() const override { return "l2mgr"; }
-        void process_init() override { l2_load(); }
+        void process_init() override
+        {
+                l2_load();
+                kern_load();
+        }
         std::vector<std::string> real_components() const override
         {
                 return { "lane schedulers called directly: _<algo>_mb_mgr_{init,submit,flush}_<family> for every family, sha512_sb_mgr_*_sse4, and the kernels beneath them" };
         }
         std::vector<std::string> stub_components() const override { return { "the ctx layer (the simulation submits whole-block jobs itself)", "memory map", "register file / dead stack" }; }
 
-        enum { OP_SUBMIT = 1, OP_FLUSH = 2, OP_DRAIN = 3 };
+        enum { OP_SUBMIT = 1, OP_FLUSH = 2, OP_DRAIN = 3, OP_MHBLOCK = 4, OP_ROLLSCAN = 5, OP_SHA512SB = 6 };
 
         Plan generate(uint64_t seed, const std::string &, bool thorough, uint64_t) override
         {
@@ -105,6 +133,22 @@ struct L2Sim : Sim {
                 Plan p;
                 int a = (int) g.below(A_N);
                 p.cfg["algo"] = a;
+                if (g.chance(1, 4)) {
+                        // kernel mode: assembly block/scan routines that the library reaches only through C wrappers
+                        p.cfg["mode"] = 1;
+                        int n = 3 + (int) g.below(20);
+                        for (int i = 0; i < n; i++) {
+                                Op o;
+                                int x = (int) g.below(10);
+                                o.kind = x < 6 ? OP_MHBLOCK : x < 9 ? OP_ROLLSCAN : OP_SHA512SB;
+                                o.a = (int64_t) g.below(1 << 16);
+                                o.b = (int64_t) g.below(1 << 16);
+                                o.c = (int64_t) g.below(1 << 16);
+                                o.d = (int64_t) g.below(1 << 16);
+                                p.ops.push_back(o);
+                        }
+                        return p;
+                }
                 p.cfg["family"] = (int64_t) g.below(64);
                 int n = 3 + (int) g.below(thorough ? 80 : 50);
                 int wflush = (int) g.below(30);
@@ -131,8 +175,175 @@ struct L2Sim : Sim {
                 return s + "]";
         }
 
+        void kernel_ops(const Plan &p, Env &e, RunResult &r)
+        {
+                for (size_t oi = 0; oi < p.ops.size(); oi++) {
+                        e.op_index = (int) oi;
+                        const Op &o = p.ops[oi];
+                        Mem::Mark mk = e.mem.mark();
+                        Rng g(mix64(p.seed, 0x4e000 + oi), "kdata");
+                        if (o.kind == OP_MHBLOCK) {
+                                int kind = (int) (o.a % 3), fam = (int) ((o.a >> 2) % 5);
+                                void *fn = kind == 0 ? k_mh1_block[fam] : kind == 1 ? k_mh256_block[fam] : k_mur_block[fam];
+                                if (!fn)
+                                        continue;
+                                bool sha256 = kind == 1;
+                                int nw = sha256 ? 8 : 5;
+                                uint32_t nblk = 1 + (uint32_t) (o.b % 5);
+                                size_t n = (size_t) nblk * 1024;
+                                uint8_t *in = e.mem.alloc(n, 1, (Place) (o.d % 3), nullptr, "block input", R_INPUT, (size_t) ((o.d >> 2) % 64));
+                                g.fill(in, n);
+                                e.mem.snapshot(in);
+                                uint32_t *dg = (uint32_t *) e.mem.alloc((size_t) nw * 16 * 4, 4, (Place) ((o.d >> 8) % 3), &e.hidden, "segment digests", R_OBJECT, 4 * (size_t) ((o.d >> 10) % 16));
+                                uint8_t *frame = e.mem.alloc(1024, 64, (Place) ((o.d >> 14) % 2), &e.hidden, "frame buffer", R_OBJECT);
+                                Algo a = sha256 ? A_SHA256 : A_SHA1;
+                                std::vector<RefHash> seg(16, RefHash(a));
+                                Rng ivr(mix64(p.seed, 0x1d + oi), "iv"); // arbitrary running digests, as in the middle of a stream
+                                for (int sgi = 0; sgi < 16; sgi++)
+                                        for (int w = 0; w < nw; w++) {
+                                                seg[sgi].h32[w] = (uint32_t) ivr.next();
+                                                dg[w * 16 + sgi] = seg[sgi].h32[w];
+                                        }
+                                for (uint32_t b = 0; b < nblk; b++)
+                                        for (int sgi = 0; sgi < 16; sgi++) {
+                                                uint8_t blk[64];
+                                                for (int wd = 0; wd < 16; wd++)
+                                                        memcpy(blk + 4 * wd, in + (size_t) b * 1024 + (size_t) (wd * 16 + sgi) * 4, 4);
+                                                seg[sgi].compress(blk);
+                                        }
+                                std::string nm = strfmt("_%s_block_%s", kind == 0 ? "mh_sha1" : kind == 1 ? "mh_sha256" : "mh_sha1_murmur3_x64_128", kfam[fam]);
+                                uint64_t mur[2] = { ivr.next(), ivr.next() }, mur0[2];
+                                uint32_t *murp = nullptr;
+                                if (kind == 2) {
+                                        murp = (uint32_t *) e.mem.alloc(16, 4, END_FLUSH, &e.hidden, "murmur state", R_OBJECT);
+                                        memcpy(murp, mur, 16);
+                                        memcpy(mur0, mur, 16);
+                                        // model: murmur3_x64_128 body over every 16-byte block
+                                        const uint64_t c1 = 0x87c37b91114253d5ULL, c2 = 0x4cf5ad432745937fULL;
+                                        for (size_t i = 0; i < n / 16; i++) {
+                                                uint64_t k1, k2;
+                                                memcpy(&k1, in + 16 * i, 8);
+                                                memcpy(&k2, in + 16 * i + 8, 8);
+                                                k1 *= c1;
+                                                k1 = rol64k(k1, 31);
+                                                k1 *= c2;
+                                                mur[0] ^= k1;
+                                                mur[0] = rol64k(mur[0], 27);
+                                                mur[0] += mur[1];
+                                                mur[0] = mur[0] * 5 + 0x52dce729;
+                                                k2 *= c2;
+                                                k2 = rol64k(k2, 33);
+                                                k2 *= c1;
+                                                mur[1] ^= k2;
+                                                mur[1] = rol64k(mur[1], 31);
+                                                mur[1] += mur[0];
+                                                mur[1] = mur[1] * 5 + 0x38495ab5;
+                                        }
+                                        e.call(nm.c_str(), fn, { U(in), U(dg), U(frame), U(murp), nblk });
+                                } else
+                                        e.call(nm.c_str(), fn, { U(in), U(dg), U(frame), nblk });
+                                e.obs_bytes(0xc10, dg, (size_t) nw * 64);
+                                bool bad = false;
+                                for (int sgi = 0; sgi < 16 && !bad; sgi++)
+                                        for (int w = 0; w < nw; w++)
+                                                if (dg[w * 16 + sgi] != seg[sgi].h32[w])
+                                                        bad = true;
+                                const char *prop = kind == 2 ? "C10" : "C05";
+                                if (bad)
+                                        e.violation(prop, "block-function", std::string(prop) + "/block-function/" + nm,
+                                                    strfmt("%s over %u blocks: segment digests differ from 16 interleaved compression chains", nm.c_str(), nblk));
+                                if (murp) {
+                                        e.obs_bytes(0xc11, murp, 16);
+                                        if (memcmp(murp, mur, 16) != 0)
+                                                e.violation("C10", "block-function-murmur", "C10/block-function-murmur/" + nm,
+                                                            strfmt("%s over %u blocks: murmur3 running state differs from the reference body", nm.c_str(), nblk));
+                                        e.check_buf(murp, nm.c_str());
+                                }
+                                e.check_buf(in, nm.c_str());
+                                e.check_buf(dg, nm.c_str());
+                                e.check_buf(frame, nm.c_str());
+                                r.cov.state(mix64(0xb10c + kind * 8 + fam, nblk));
+                                r.cov.hit("kernel_mh_block_calls");
+                        } else if (o.kind == OP_ROLLSCAN) {
+                                int impl = (int) (o.a % 3);
+                                if (!k_roll[impl])
+                                        continue;
+                                uint32_t w = 1 + (uint32_t) (o.b % 48);
+                                uint32_t max = (uint32_t) (o.c % 600);
+                                uint32_t start = max ? (uint32_t) ((o.c >> 10) % (max + 1)) : 0;
+                                uint8_t *b1 = e.mem.alloc(max, 1, (Place) (o.d % 3), nullptr, "scan bytes (new)", R_INPUT, (size_t) ((o.d >> 2) % 64));
+                                uint8_t *b2 = e.mem.alloc(max, 1, (Place) ((o.d >> 8) % 3), nullptr, "scan bytes (old)", R_INPUT, (size_t) ((o.d >> 10) % 64));
+                                g.fill(b1, max);
+                                g.fill(b2, max);
+                                e.mem.snapshot(b1);
+                                e.mem.snapshot(b2);
+                                uint64_t *t1 = (uint64_t *) e.mem.alloc(2048, 8, START_FLUSH, nullptr, "table1", R_CONST);
+                                uint64_t *t2 = (uint64_t *) e.mem.alloc(2048, 8, END_FLUSH, nullptr, "table2", R_CONST);
+                                for (int i = 0; i < 256; i++) {
+                                        t1[i] = golden_rolling_table[i];
+                                        t2[i] = rol64k(golden_rolling_table[i], (int) w);
+                                }
+                                e.mem.snapshot(t1);
+                                e.mem.snapshot(t2);
+                                uint32_t *idx = (uint32_t *) e.mem.alloc(4, 4, END_FLUSH, nullptr, "idx", R_OUTPUT);
+                                *idx = start;
+                                uint64_t h0 = g.next();
+                                int nbits = 1 + (int) (o.a >> 4) % 10;
+                                uint64_t mask = 0;
+                                for (int b = 0; b < nbits; b++)
+                                        mask |= 1ull << (g.next() % 32);
+                                uint64_t trig = (o.a & 0x4000) ? 0 : (g.next() & mask);
+                                // model
+                                uint64_t h = h0;
+                                uint32_t i = start;
+                                for (; i < max; i++) {
+                                        h = rol64k(h, 1) ^ t1[b1[i]] ^ t2[b2[i]];
+                                        if ((h & mask) == trig)
+                                                break;
+                                }
+                                static const char *rn[3] = { "_rolling_hash2_run_until_base", "_rolling_hash2_run_until_00", "_rolling_hash2_run_until_04" };
+                                uint64_t got = e.call(rn[impl], k_roll[impl], { U(idx), max, U(t1), U(t2), U(b1), U(b2), h0, mask, trig });
+                                e.obs(0xc20, got);
+                                e.obs(0xc21, *idx);
+                                if (got != h || *idx != i)
+                                        e.violation("C09", "scan-kernel", std::string("C09/scan-kernel/") + rn[impl],
+                                                    strfmt("%s(idx=%u,max=%u,mask=%llx,trigger=%llx) returned hash %llx at idx %u; definition gives %llx at idx %u", rn[impl], start,
+                                                           max, (unsigned long long) mask, (unsigned long long) trig, (unsigned long long) got, *idx, (unsigned long long) h, i));
+                                for (void *bb : { (void *) b1, (void *) b2, (void *) t1, (void *) t2, (void *) idx })
+                                        e.check_buf(bb, rn[impl]);
+                                r.cov.state(mix64(0x5ca0 + impl, mix64(max - start < 3 ? max - start : 3, i < max)));
+                                r.cov.hit("kernel_rolling_scan_calls");
+                        } else if (o.kind == OP_SHA512SB && k_sha512_sse4) {
+                                uint32_t nblk = 1 + (uint32_t) (o.b % 6);
+                                uint8_t *in = e.mem.alloc((size_t) nblk * 128, 1, (Place) (o.d % 3), nullptr, "block input", R_INPUT, (size_t) ((o.d >> 2) % 64));
+                                g.fill(in, (size_t) nblk * 128);
+                                e.mem.snapshot(in);
+                                uint64_t *dg = (uint64_t *) e.mem.alloc(64, 8, (Place) ((o.d >> 8) % 3), &e.hidden, "digest", R_OBJECT, 8 * (size_t) ((o.d >> 10) % 8));
+                                RefHash ref(A_SHA512);
+                                for (int w = 0; w < 8; w++) {
+                                        ref.h64[w] = g.next();
+                                        dg[w] = ref.h64[w];
+                                }
+                                for (uint32_t b = 0; b < nblk; b++)
+                                        ref.compress(in + (size_t) b * 128);
+                                e.call("_sha512_sse4", k_sha512_sse4, { U(in), U(dg), nblk });
+                                e.obs_bytes(0xc30, dg, 64);
+                                if (memcmp(dg, ref.h64, 64) != 0)
+                                        e.violation("C01", "digest", "C01/digest/sha512/sb_sse4/kernel", strfmt("_sha512_sse4 over %u blocks differs from the compression chain", nblk));
+                                e.check_buf(in, "_sha512_sse4");
+                                e.check_buf(dg, "_sha512_sse4");
+                                r.cov.hit("kernel_sha512_sse4_calls");
+                        }
+                        e.mem.release(mk);
+                }
+        }
+
         void execute(const Plan &p, Env &e, RunResult &r) override
         {
+                if (p.get("mode") == 1) {
+                        kernel_ops(p, e, r);
+                        return;
+                }
                 const L2Algo &d = g_l2[p.get("algo") % A_N];
                 if (d.fams.empty())
                         return;
